@@ -705,3 +705,14 @@ func FreshMapUpdates(w *World, id, kind, fnName string, min int, what string) []
 	}
 	return out
 }
+
+// FieldNameOf returns the name of the struct field a FieldAddr selects.
+func FieldNameOf(fa *ssa.FieldAddr) string {
+	t := fa.X.Type().Underlying()
+	if p, ok := t.(*types.Pointer); ok {
+		if st, ok := p.Elem().Underlying().(*types.Struct); ok && fa.Field < st.NumFields() {
+			return st.Field(fa.Field).Name()
+		}
+	}
+	return ""
+}
